@@ -140,11 +140,11 @@ func (c06) Run(c *run.Ctx, phase, idx int) {
 }
 
 type callEvent struct {
-	Call     int    `json:"call"`
-	PosBefore int64 `json:"pos_before"`
-	Drawn    int64  `json:"drawn"`
-	Expected int64  `json:"expected"`
-	Outcome  string `json:"outcome"`
+	Call      int    `json:"call"`
+	PosBefore int64  `json:"pos_before"`
+	Drawn     int64  `json:"drawn"`
+	Expected  int64  `json:"expected"`
+	Outcome   string `json:"outcome"`
 }
 
 // c06Judge reads the stream through rd (already wrapped as needed) and
@@ -179,7 +179,9 @@ func c06Judge(c *run.Ctx, s streamCase, rkind string, rd io.Reader) {
 			return // C04's finding, not C06's
 		}
 		before := cr.N
-		c.Current(func() string { return fmt.Sprintf("ReadPacket stream=%s offset=%d reader=%s", hexClip(stream, 512), pos, rkind) })
+		c.Current(func() string {
+			return fmt.Sprintf("ReadPacket stream=%s offset=%d reader=%s", hexClip(stream, 512), pos, rkind)
+		})
 		res := mon.Read(cr)
 		c.Eval(1)
 		drawn := cr.N - before
@@ -214,7 +216,9 @@ func c06Judge(c *run.Ctx, s streamCase, rkind string, rd io.Reader) {
 	}
 	// after the last frame
 	before := cr.N
-	c.Current(func() string { return fmt.Sprintf("ReadPacket(after last) stream=%s reader=%s", hexClip(stream, 512), rkind) })
+	c.Current(func() string {
+		return fmt.Sprintf("ReadPacket(after last) stream=%s reader=%s", hexClip(stream, 512), rkind)
+	})
 	res := mon.Read(cr)
 	c.Eval(1)
 	if res.Panic != nil {
